@@ -392,6 +392,27 @@ fn c10_canary_inc_unbounded() {
     assert!(p.inc(l).0 == p.0.wrapping_add(1));
 }
 
+// ---------------------------------------------------------------- C40: the GPSd measurement expression
+
+/// the sock source computes `time - NtpDuration::from_seconds(sample.offset)`: for every finite
+/// offset (what the validator lets through) and every clock reading this never panics.
+#[kani::proof]
+fn c40_p_measurement_expression_no_panic() {
+    let offset: f64 = kani::any();
+    kani::assume(offset.is_finite());
+    let time = any_ts();
+    let sender = time - NtpDuration::from_seconds(offset);
+    // remote - local == offset as converted (wrapping-exact)
+    assert!(sender - time == -NtpDuration::from_seconds(offset) || NtpDuration::from_seconds(offset).duration == i64::MIN);
+    kani::cover!(offset < -1.0, "negative offset reachable");
+}
+
+#[kani::proof]
+fn c40_canary_nan_offset_is_fine() {
+    let offset: f64 = kani::any();
+    let _ = NtpDuration::from_seconds(offset);
+}
+
 #[cfg(all(kani, test))]
 mod replay {
     use super::*;
